@@ -55,7 +55,10 @@ type FuncSpec struct {
 	Family     string
 	Props      []string
 	VerifyBody bool
+	SafetyKeep []string // with NoSafety: the safety obligation kinds (suffix after "safe.") that are still claimed
 	NoSafety   bool // only the stated clauses are proved; the zero-annotation safety sweep is not claimed
+	Decreases  *Clause
+	Rank       int
 }
 
 type Lemma struct {
@@ -193,8 +196,26 @@ func parseClauseLine(fs *FuncSpec, l string) error {
 	case l == "nopanic":
 		fs.NoPanic = true
 		return nil
+	case strings.HasPrefix(l, "decreases "):
+		// decreases E [rank N]: termination measure of a (mutually) recursive function, lexicographic (E, rank)
+		rest := strings.TrimSpace(l[len("decreases "):])
+		fs.Rank = 0
+		if i := strings.LastIndex(rest, " rank "); i >= 0 {
+			fmt.Sscan(strings.TrimSpace(rest[i+6:]), &fs.Rank)
+			rest = strings.TrimSpace(rest[:i])
+		}
+		n, err := parseSpec(rest)
+		if err != nil {
+			return err
+		}
+		fs.Decreases = &Clause{Label: "decreases", Text: rest, Node: n}
+		return nil
 	case l == "no-safety":
 		fs.NoSafety = true
+		return nil
+	case strings.HasPrefix(l, "no-safety except "):
+		fs.NoSafety = true
+		fs.SafetyKeep = strings.Fields(strings.TrimPrefix(l, "no-safety except "))
 		return nil
 	case l == "inline":
 		fs.Inline = true
